@@ -83,6 +83,13 @@ def rule_reset(ck, rid="C14.R4"):
         ck.require(ok, rid, f, stores[-1][1] if stores else "self._current_charge = ...", ok="initial charge by default, the given charge otherwise",
                    bad=f"reset must restore self._init_charge (no argument) or the given charge; on the path [{r.describe(80)}] the stored charge is {vals[-1] if vals else 'left unchanged'}",
                    sink="reset-charge-value")
+        # "reset restores the initial state": the charge remembered from construction is what a later reset() goes back to, so no
+        # reset may replace it (storing it onto itself on the default path of a shared helper is no change)
+        inits = [(k.split(" = ", 1)[1], st) for kind, k, st, node in r.effects if kind in ("store", "mut") and k.startswith("self._init_charge")]
+        changed = [(v, st) for v, st in inits if v != "self._init_charge"]
+        ck.require(not changed, rid, f, changed[0][1] if changed else "self._init_charge", ok="the remembered initial charge is left alone",
+                   bad=f"reset overwrites the charge remembered from construction with `{changed[0][0] if changed else ''}` on the path [{r.describe(80)}]: "
+                       "reset(x) followed by reset() no longer returns to the initial state", sink="reset-keeps-init")
         pws = [k.split(" = ", 1)[1] for kind, k, st, node in r.effects if kind == "store" and k.startswith("self._current_charging_power = ")]
         ck.require(bool(pws) and pws[-1] == "0", rid, f, "self._current_charging_power = 0", ok="power zeroed on every path", bad="reset must set the charging power to 0 on every path",
                    sink="reset-power")
